@@ -23,8 +23,7 @@ def bounds(tier):
 def configs(tier, seed):
     out = [dict(n=n, root=None, timeout=900 if tier == "quick" else 1800) for n in (1, 2)]
     out += [dict(n=3, root=r, timeout=900 if tier == "quick" else 1800) for r in range(4)]
-    if tier == "thorough":
-        out += [dict(n=4, root=r, timeout=3000) for r in range(5)]
+    # (4-edge trees, split by root, were tried in the thorough tier: ~3000 labelled listings per root at ~1 s each did not confirm within 3000 s)
     return out
 
 
